@@ -48,6 +48,10 @@ def families(tier):
         {'name': 'A3', 'params': {'hist': 'BFB', 'kinds': ['is_file'], 'roles': ['in/x'], 'targets': ['o/d/g'],
                                   'modes': ['ok', 'raise_after']}},
     ]
+    q.append({'name': 'N3', 'params': {'hist': 'BMB', 'universe': UN3, 'kinds': ['is_dir', 'list_dir', 'exists'], 'roles': ['o'],
+                                    'bf_modes': ['ok', 'raise_before'], 'mut_paths': ['o'], 'mut_kinds': ['delete', 'rmtree', 'dir2file'],
+                                    'inner_q': ['is_dir', 'list_dir'], 'inner_roles': ['o']}, 'weight': 2})
+    q.append({'name': 'A8b', 'params': {'hist': 'BMB', 'kinds': ['is_dir', 'list_dir'], 'mut_paths': ['o/d/z', 'o/d/e/z', 'o/d/e']}, 'weight': 1})
     q.append({'name': 'N3', 'params': {'hist': 'BB', 'universe': UN3, 'kinds': ['is_dir', 'list_dir', 'exists'], 'roles': ['o', 'o/d', 'o/m']}, 'weight': 2})
     if tier == 'quick':
         return q
